@@ -178,6 +178,7 @@ def judge(ctx, outdir, summ, invs, confirm=True):
         log("  note: %d failed judgements belong to sibling properties: %s" % (len(other), names))
     # one report per (invariant, scenario)
     seen = set()
+    unrepro, confirmed = [], 0
     for v in mine:
         if (v["inv"], v["t"]) in seen:
             continue
@@ -185,22 +186,30 @@ def judge(ctx, outdir, summ, invs, confirm=True):
         sc = idx.get(v["t"])
         if sc is None:
             raise Infra("violation refers to unknown scenario %s" % v["t"])
-        if confirm and len(seen) <= 12 and not reproduce(ctx, sc, v["inv"]):
-            raise Infra("violation %s of scenario %d did not reproduce on replay" % (v["inv"], v["t"]))
+        if confirm and len(seen) <= 12:
+            if not any(reproduce(ctx, sc, v["inv"], k) for k in range(3)):
+                unrepro.append((v["inv"], v["t"]))
+                log("  note: %s of scenario %d did not reproduce on 3 replays; not reported" % (v["inv"], v["t"]))
+                continue
+            confirmed += 1
         report(ctx, "copy-scenario", v["inv"], sc, trace_of(v["file"], v["t"]),
                what="%s failed at event %d of scenario %d (api=%s C=%s faults=%s cancel=%s)" % (
                    v["inv"], v["i"], v["t"], sc["api"], sc["c"], sc.get("faults"), sc.get("cancel")))
+    if unrepro and not confirmed:
+        raise Infra("no violation reproduced on replay: %s" % unrepro[:5])
+    if unrepro:
+        ctx.notes.append("unreproduced judgements dropped: %s" % unrepro)
     return viol
 
 
-def reproduce(ctx, sc, inv):
+def reproduce(ctx, sc, inv, attempt=0):
     """Re-executes the scenario (same schedule) on the real code and judges it again."""
-    d = ctx.sub("repro-%d" % sc["id"])
+    d = ctx.sub("repro-%d-%d" % (sc["id"], attempt))
     p = os.path.join(d, "scen.ndjson")
     with open(p, "w") as f:
         f.write(json.dumps(sc) + "\n")
-    out, summ = drive(ctx, "", replay=p, name="repro-%d-out" % sc["id"])
-    viol = monitor(ctx, "CopyMon", summ["files"], label="L3r%d" % sc["id"])
+    out, summ = drive(ctx, "", replay=p, name="repro-%d-%d-out" % (sc["id"], attempt))
+    viol = monitor(ctx, "CopyMon", summ["files"], label="L3r%d-%d" % (sc["id"], attempt))
     return any(v["inv"] == inv for v in viol)
 
 
